@@ -60,7 +60,8 @@ def check(run, ctx):
     rep = {}
     for n in ast.walk(gc.node):
         if is_call_named(n, "replace") and n.args and isinstance(n.args[0], ast.Constant) and str(n.args[0].value).startswith("{{"):
-            key = n.args[1].slice.value if isinstance(n.args[1], ast.Subscript) and isinstance(n.args[1].slice, ast.Constant) else None
+            a1 = n.args[1]
+            key = a1.slice.value if isinstance(a1, ast.Subscript) and isinstance(a1.slice, ast.Constant) else a1.attr if isinstance(a1, ast.Attribute) else None   # preset["key"] or preset.key
             rep[n.args[0].value] = key
     for p in sorted(ph | set(rep)):
         if p in ph and p in rep:
@@ -69,17 +70,32 @@ def check(run, ctx):
             run.finding(G3, "_generate_config_content", f"unreplaced:{p}", f"template placeholder {p} is never substituted: the generated file is not valid configuration", gc.loc)
         else:
             run.finding(G3, "_generate_config_content", f"stale-replace:{p}", f"{p} is substituted but the template does not contain it", gc.loc)
+    def preset_table(e):
+        """{'name': {'key': value, ...}} from a dict whose values are dict literals or record constructors with keyword arguments"""
+        if not isinstance(e, ast.Dict) or not e.keys:
+            return None
+        out_ = {}
+        for k_, v_ in zip(e.keys, e.values):
+            if not (isinstance(k_, ast.Constant) and isinstance(k_.value, str)):
+                return None
+            if isinstance(v_, ast.Dict):
+                inner = repo.fold(gc.module, v_)
+                if not isinstance(inner, dict):
+                    return None
+                out_[k_.value] = inner
+            elif isinstance(v_, ast.Call) and not v_.args and v_.keywords and all(kw.arg for kw in v_.keywords):
+                out_[k_.value] = {kw.arg: repo.fold(gc.module, kw.value) for kw in v_.keywords}
+            else:
+                return None
+        return out_
+
     presets = None
-    for n in ast.walk(gc.node):
-        if isinstance(n, ast.Assign) and isinstance(n.value, ast.Dict):   # the preset table: a dict of dicts keyed by preset name, whatever it is called
-            v_ = repo.fold(gc.module, n.value)
-            if isinstance(v_, dict) and v_ and all(isinstance(x, dict) for x in v_.values()):
-                presets = v_
-    if presets is None:   # hoisted to a module constant
-        for nm_, ex_ in gc.module.assigns.items():
-            v_ = repo.fold(gc.module, ex_)
-            if isinstance(v_, dict) and v_ and all(isinstance(x, dict) for x in v_.values()) and any(k in v_ for k in ("strict", "standard", "lenient")):
-                presets = v_
+    cands = [n.value for n in ast.walk(gc.node) if isinstance(n, (ast.Assign, ast.AnnAssign)) and n.value is not None] + list(gc.module.assigns.values())
+    for e_ in cands:   # in the function or hoisted to a module constant, whatever it is called
+        t_ = preset_table(e_)
+        if t_ and all(isinstance(x, dict) for x in t_.values()) and any(k in t_ for k in ("strict", "standard", "lenient")):
+            presets = t_
+            break
     run.require(isinstance(presets, dict), "preset table not foldable")
     choices = []
     for f in (repo.func("src.cli.config.init_config"),):
